@@ -512,23 +512,33 @@ def recover_formula(chk, p, pid="C14", rule="R14.4"):
             continue
         nret += 1
         v = path.value
-        ok = isinstance(v, tuple) and len(v) == 2 and all(isinstance(x, Obj) and x.cls == "Public_key" for x in v)
+        ok = isinstance(v, tuple) and len(v) <= 2 and all(isinstance(x, Obj) and x.cls == "Public_key" for x in v)
         got = []
         if ok:
             for x in v:
                 ar = path.fields(x).get("$args", ())
                 ok &= len(ar) >= 2 and isinstance(ar[0], LinPt) and ar[0] == G and isinstance(ar[1], LinPt)
                 got.append(ar[1] if len(ar) >= 2 else None)
-        chk.ob(rule, "recover_public_keys returns two Public_key(generator, Q) [%s]" % cond, ok, loc=loc, key=key + "|shape", detail="recover_public_keys returns %r" % (v,))
+        chk.ob(rule, "recover_public_keys returns at most two Public_key(generator, Q) [%s]" % cond, ok, loc=loc, key=key + "|shape", detail="recover_public_keys returns %r" % (v,))
         if not ok:
             continue
         want = []
         for y in (V("beta"), -V("beta")):
             nm = "Pt(%r, %r, %r)" % (r, y, C(1))
             want.append(LinPt.point(nm).smul(s * r.inv()) - G.smul(e * r.inv()))
-        okq = (got[0] == want[0] and got[1] == want[1]) or (got[0] == want[1] and got[1] == want[0])
-        chk.ob(rule, "the candidates are (s/r)*R - (e/r)*G for R = (r, beta, 1) and (r, -beta, 1) [%s]" % cond, okq, loc=loc, key=key + "|Q",
-               detail="recover_public_keys computes %r and %r instead of r^-1 (s R - e G) on the two points with x = r" % (got[0], got[1]))
+        lits = path.unit_lits()
+        for i, w in enumerate(want):
+            returned = any(g == w for g in got)
+            nonzero = any(l.kind == "ptnonzero" and l.val == w for l in lits)
+            zero = any(l.kind == "ptzero" and l.val == w for l in lits)
+            okc = (returned and nonzero) or (not returned and zero)
+            chk.ob(rule, "candidate %d = (s/r)*R - (e/r)*G for R = (r, %sbeta, 1) is returned iff it is not the point at infinity [%s]" % (i + 1, "-" if i else "", cond), okc, loc=loc,
+                   key="%s|%s|recover|candidate-%d|%s" % (pid, rule, i + 1, "unguarded" if returned and not nonzero else "missing" if not returned and not zero else "ok"),
+                   detail="recover_public_keys %s on the path [%s]" % ("wraps the candidate r^-1 (s R - e G) in Public_key(...) without testing it against INFINITY: for an honest signature with 2e + r d = 0 (mod n) "
+                                                                     "the second candidate is the point at infinity and Public_key.__init__ fails with TypeError on its None coordinates" if returned else
+                                                                     "does not return the candidate for the root %sbeta although it is not known to be the point at infinity" % ("-" if i else ""), cond))
+        stray = [g for g in got if not any(g == w for w in want)]
+        chk.ob(rule, "only the two candidates are returned [%s]" % cond, not stray, loc=loc, key=key + "|Q", detail="recover_public_keys returns %r, which is not r^-1 (s R - e G) on a point with x = r" % (stray,))
     okroot = bool(roots) and all(isinstance(x, Rat) and x == r * r * r + a * r + b for x in roots)
     chk.ob(rule, "the root is taken of r^3 + a*r + b", okroot, loc=fq, key="%s|%s|alpha" % (pid, rule), detail="square_root_mod_prime is applied to %s, not to x^3 + a*x + b at x = r" % ([repr(x) for x in roots] or "nothing"))
     chk.floor(rule, "returning paths of recover_public_keys", nret, 1)
